@@ -572,9 +572,10 @@ class BaseCurve(Intface_BaseCurve):
         else:
             newweights = np.dot(matrix, oldweights)
             if oldctrlpoints is not None:
-                oldctrlpoints = list(oldctrlpoints)
-                for i, weight in enumerate(oldweights):
-                    oldctrlpoints[i] *= weight
+                # New (weighted) points: the stored ones must not be scaled in place
+                oldctrlpoints = [
+                    weight * point for weight, point in zip(oldweights, oldctrlpoints)
+                ]
                 newctrlpoints = []
                 for i, line in enumerate(matrix):
                     newctrlpoints.append(0 * oldctrlpoints[0])
